@@ -12,8 +12,12 @@ def configs(rnd, count, n_max=12):
     out, seen = [], set()
     while len(out) < count:
         n = rnd.randint(1, n_max)
-        if rnd.random() < 0.5:
+        r = rnd.random()
+        if r < 0.45:
             burn = ("count", rnd.randint(0, n + 1))
+        elif r < 0.6:
+            burn = ("frac8", rnd.choice([1, 3, 5, 7]))      # not a whole percent; exact for n_iter = 8
+            n = rnd.choice([8, 8, n])
         else:
             f = rnd.randint(0, 10)
             if saem.frac_ambiguous(f, n):
@@ -30,7 +34,7 @@ def configs(rnd, count, n_max=12):
 
 def run(ctx):
     q = ctx.quick
-    ctx.rule = ("TLC explores every configuration (n_iter <= 12, burn-in as count 0..13 or fraction in tenths, six step "
+    ctx.rule = ("TLC explores every configuration (n_iter <= 12, burn-in as count 0..13 or fraction in tenths or eighths, six step "
                 "powers incl. the refused 1/2 and 11/10) and every iteration of Saem.tla (PhaseRule, StepIndexRule, "
                 "BurnInLength, PowerRefusedInv, BatchUpdate, SampledOnce, Termination). Real fits are run for sampled "
                 "configurations on several model kinds; the recorder derives from the statistics actually used whether "
